@@ -301,6 +301,11 @@ static std::string handle(const std::vector<std::string>& a) {
             for (Square s : AllSquares()) os << (int)Position::castleSqMask[s] << (s.asInt() == 63 ? "" : " ");
             return os.str();
         }
+        if (op == "matw" && a.size() == 1) {
+            std::ostringstream os;
+            for (int p = 0; p < Piece::nPieceTypes; p++) os << (p ? " " : "") << MatId::materialId[p];
+            return os.str();
+        }
         if (op == "run" && a.size() >= 2) return runHistory(a);
         if (op == "mscore" && a.size() >= 2) {
             // UB probe for the users of the material id: Evaluate::materialScore (hash-table index computed from
